@@ -50,7 +50,8 @@ func (s *badgerStore) Close() error {
 
 func (s *badgerStore) CheckAndSaveNonce(ID string, nonce int64) error {
 	// If nonceExpire is set, nonce should be within nonceExpire of now.
-	expire := s.nonceExpire
+	// Badger keeps expiry times in whole seconds, rounded down: allow for that.
+	expire := s.nonceExpire + time.Second
 	if s.nonceExpire > 0 {
 		now := time.Now()
 		if nonce <= now.Add(-s.nonceExpire).UnixNano() {
